@@ -614,9 +614,12 @@ class Printer:
         if isinstance(p, PVar):
             self.w(p.name)
         elif isinstance(p, PLit):
-            self.w(lit_src(p.ty, p.v, p.suffix))
+            self.w(lit_src(getattr(p, "sfx_ty", None) or p.ty, p.v, p.suffix))
         elif isinstance(p, PRange):
-            self.w(lit_src(p.ty, p.lo, p.suffix) + ("..=" if p.inclusive else "..") + lit_src(p.ty, p.hi, p.suffix))
+            # sfx_ty: the literals carry the suffix of ANOTHER integer type whose range holds the bounds (the front end
+            # accepts that against any number scrutinee and compares numerically)
+            st = getattr(p, "sfx_ty", None) or p.ty
+            self.w(lit_src(st, p.lo, p.suffix) + ("..=" if p.inclusive else "..") + lit_src(st, p.hi, p.suffix))
         elif isinstance(p, PTup):
             self.w("(")
             for k, q in enumerate(p.ps):
